@@ -2,7 +2,7 @@
    packing, width schedule and CLEAR codes; the other codecs by differential). *)
 From Coq Require Import ZArith List Lia Bool.
 Import ListNotations.
-From LX Require Import Generated.Consts Model.Rle90 Proofs.Rle90Proofs Model.Lzw Proofs.LzwBitsProofs Proofs.LzwCodesProofs Model.Crc Model.Inflate Proofs.InflateCodesProofs Proofs.InflateStreamProofs Proofs.InflateGzipProofs.
+From LX Require Import Generated.Consts Model.Rle90 Proofs.Rle90Proofs Model.Lzw Proofs.LzwBitsProofs Proofs.LzwCodesProofs Model.Crc Model.Inflate Proofs.InflateCodesProofs Proofs.InflateStreamProofs Proofs.InflateGzipProofs Model.PP20 Proofs.PP20Proofs.
 Local Open Scope Z_scope.
 
 (* For every byte string - any length, any content, runs of any length, the marker byte itself anywhere - the RLE90
@@ -97,4 +97,29 @@ Example c08_inflate_nonvacuous :
   inflate (deflate segs) = Some ([1; 2; 3] ++ data) /\
   gunzip (gzip_member (Some [115]) None None true segs) = Some ([1; 2; 3] ++ data) /\
   inflate [3; 0] = Some [] /\ inflate [7; 0] = None.
+Proof. vm_compute. repeat split; reflexivity. Qed.
+
+(* ---------------------------------------------------------------- PowerPacker (PP20) ---------------------------------- *)
+
+(* For every efficiency table the format allows and every sequence of well-formed steps (literal runs of any length, matches of
+   any length >= 2 reaching back no further than what was emitted, offsets within the width of their length class): the
+   transcribed decrunch_pp - header and trailer checks, the backwards bit reader, the literal / match loop writing the output from
+   its end - returns exactly what the steps stand for. *)
+Theorem pp_unpack_pack : forall eff ss, eff_okb eff = true -> steps_okb eff ss 0 = true ->
+  steps_expand ss [] <> [] -> Z.of_nat (length (steps_expand ss [])) < 2 ^ 24 ->
+  pp_unpack (pp_pack eff ss) = Some (steps_expand ss []).
+Proof. exact PP20Proofs.pp_unpack_pack. Qed.
+Print Assumptions pp_unpack_pack.
+
+(* with the model's tokenizer: every non-empty byte string below 16 MiB survives packing and unpacking *)
+Theorem pp_roundtrip : forall eff data, eff_okb eff = true -> forallb (fun x => (0 <=? x) && (x <=? 255)) data = true -> data <> [] ->
+  Z.of_nat (length data) < 2 ^ 24 -> pp_unpack (pp_pack_data eff data) = Some data.
+Proof. exact PP20Proofs.pp_roundtrip. Qed.
+Print Assumptions pp_roundtrip.
+
+Example c08_pp_nonvacuous :
+  let data := [1; 2; 3; 1; 2; 3; 1; 2; 3; 1; 2; 3; 9] in
+  let f := pp_pack_data [9; 10; 12; 13] data in
+  eff_okb [9; 10; 12; 13] = true /\ Nat.eqb (length f mod 4) 0 = true /\ firstn 8 f = [80; 80; 50; 48; 9; 10; 12; 13] /\
+  pp_unpack f = Some data /\ pp_unpack (firstn 8 f ++ [0; 0; 0; 0] ++ skipn 12 f) = None.
 Proof. vm_compute. repeat split; reflexivity. Qed.
